@@ -28,6 +28,7 @@ var errMalformedXPath = errors.New("malformed xpath")
 var errMalformedXPathKey = errors.New("malformed xpath key")
 
 var escapedBracketsReplacer = strings.NewReplacer(`\]`, `]`, `\[`, `[`)
+var bracketsEscaper = strings.NewReplacer(`]`, `\]`, `[`, `\[`)
 
 func relativeToAbsPath(p *sdcpb.Path, currentPath []*sdcpb.PathElem) *sdcpb.Path {
 	np := &sdcpb.Path{
@@ -344,9 +345,10 @@ func ToXPath(p *sdcpb.Path, noKeys bool) string {
 			// iterate over the sorted keys slice
 			for _, k := range keySlice {
 				sb.WriteString("[")
-				sb.WriteString(k)
+				sb.WriteString(bracketsEscaper.Replace(k))
 				sb.WriteString("=")
-				sb.WriteString(kvMap[k])
+				// brackets in key values need to be escaped, otherwise the result cannot be parsed back
+				sb.WriteString(bracketsEscaper.Replace(kvMap[k]))
 				sb.WriteString("]")
 			}
 		}
